@@ -62,7 +62,7 @@ def proj(lines, src, keep_ops=None, keep_events=(), dump=False, sort_events=True
 SPECS = {
     "C01": dict(
         title="observed values equal a from-scratch evaluation",
-        streams=[("c01", 1500, 60000, 40), ("reobserve", 1500, 40000, 0)],
+        streams=[("c01", 1500, 60000, 40), ("reobserve", 1500, 40000, 0), ("joinexport", 400, 10000, 0)],
         proj=dict(keep_ops=("read",), keep_events=()),
         oracle=lambda s, o, t: O.oracle_values(s, o, t, check_frame=False),
         profiles=("debug",), dump=False,
@@ -80,7 +80,8 @@ SPECS = {
     ),
     "C03": dict(
         title="bind scopes",
-        streams=[("binds", 500, 16000, 40), ("exports", 400, 12000, 40), ("direct", 300, 12000, 0), ("rhsheights", 150, 6000, 0)],
+        streams=[("binds", 500, 16000, 40), ("exports", 400, 12000, 40), ("direct", 300, 12000, 0), ("rhsheights", 150, 6000, 0),
+                 ("joinexport", 200, 6000, 0)],
         proj=dict(keep_ops=("stabilise", "read"), keep_events=("inv", "bindrun", "foldcall", "upd", "invalidate")),
         oracle=O.oracle_bind_scopes, profiles=("debug", "release"), dump=True,
         nontrivial=lambda src, ops: any("gen=" in e and "gen=0" not in e for o in ops for e in o.events if e.startswith("bindrun")),
@@ -195,7 +196,7 @@ SPECS = {
 
 
 HANDLE_MAKERS = ("var", "pair", "const", "map", "mapref", "mapold", "fold", "zip", "dependon", "bind", "observe", "observeexport",
-                 "mapexport", "subscribe", "memonew", "memocall", "expert", "varmap", "permapi", "permapiom", "perfilter", "perfilterom", "adddep")
+                 "mapexport", "exporthandle", "subscribe", "memonew", "memocall", "expert", "varmap", "permapi", "permapiom", "perfilter", "perfilterom", "adddep")
 
 
 def oracle_for(spec, hid):
